@@ -1,5 +1,5 @@
 From Coq Require Import ZArith.
-From DV Require Import DeltaGraph.
+From DV Require Import DeltaGraph ThinPack.
 Require Extraction.
 Require Import ExtrOcamlBasic.
-Extraction "model.ml" resolve read_entry Z.succ.
+Extraction "model.ml" resolve read_entry Z.succ complete completed_names.
